@@ -92,7 +92,7 @@ def leaves(expr):
 
 
 class Denoter:
-    def __init__(self, family, ref=None, alt=None, do_env=None, literal_subscripts=False):
+    def __init__(self, family, ref=None, alt=None, do_env=None, literal_subscripts=False, sum_binds_subscripts=True):
         if not isinstance(family, dict):
             family = {TARGET: family}
         self.family = family
@@ -101,6 +101,7 @@ class Denoter:
         self.alt = alt or {}
         self.do_env = do_env or {}
         self.literal = literal_subscripts
+        self.sum_binds = sum_binds_subscripts
         self._memo: dict = {}
         self.bound_stack: list[set] = []
 
@@ -122,7 +123,7 @@ class Denoter:
             return ()
         do = {}
         for i in v.interventions:
-            if i.name in bound:
+            if i.name in bound and self.sum_binds:
                 do[i.name] = env[i.name]
             elif not self.literal and i.name in self.do_env:
                 do[i.name] = self.do_env[i.name]
